@@ -184,6 +184,13 @@ func malformedPacket(id uint32, h int, n int, hasLong []bool, kind string) (pkt 
 	switch kind {
 	case "trunc_bitmap":
 		return head, true
+	case "cursor_flag":
+		// flags byte = CURSOR_TYPE_READ_ONLY: refused as unsupported before anything is bound
+		// (added after seeded change c16-2 was missed: a refusal that happens before the
+		// parameter section is read must still end the execution's pending long data)
+		pkt = append(idBytes(id), 1, 1, 0, 0, 0)
+		pkt = append(pkt, make([]byte, (n+7)/8)...)
+		return pkt, true
 	case "trunc_types":
 		pkt = append(head, make([]byte, (n+7)/8)...)
 		pkt = append(pkt, 1, mysql.TypeVarString)
@@ -236,7 +243,7 @@ func malformedPacket(id uint32, h int, n int, hasLong []bool, kind string) (pkt 
 
 // ---------- replay ----------
 
-var malformations = []string{"trunc_bitmap", "trunc_value", "unknown_type", "trunc_types", "bad_date_len"}
+var malformations = []string{"trunc_bitmap", "cursor_flag", "trunc_value", "unknown_type", "trunc_types", "bad_date_len"}
 
 func renderArgs(args []interface{}) string {
 	var sb strings.Builder
@@ -417,7 +424,7 @@ func replay(hist []event) xstate.Result {
 				for p := range mh.long {
 					mh.long[p] = nil
 				}
-				if e.M != "trunc_bitmap" && e.M != "trunc_types" {
+				if e.M != "trunc_bitmap" && e.M != "trunc_types" && e.M != "cursor_flag" {
 					// the packet carried a full type list before it failed: what the server
 					// remembers afterwards is not defined by the property
 					mh.types = nil
@@ -544,7 +551,7 @@ func typesDefined(hist []event, h int) bool {
 		case "X":
 			def = true
 		case "M":
-			if e.M != "trunc_bitmap" && e.M != "trunc_types" {
+			if e.M != "trunc_bitmap" && e.M != "trunc_types" && e.M != "cursor_flag" {
 				def = false
 			}
 		case "C":
@@ -575,7 +582,7 @@ func main() {
 
 	maxDepth := r.Pick(5, 7)
 	maxPrepares := r.Pick(2, 3)
-	nMal := r.Pick(3, 5)
+	nMal := r.Pick(4, 6)
 	enabled := func(hist []event) []event {
 		np := 0
 		for _, e := range hist {
